@@ -164,7 +164,7 @@ class Flow:
 
     def live_under(self, st, assume):
         """False when the guards of statement `st` contradict the assumptions (condition text -> truth value)"""
-        for test, pol in guard_chain(st):
+        for test, pol in guard_chain(st, implicit=True):
             t = norm(self.resolve(test, at=test))
             for k, v in assume.items():
                 neg = norm(ast.UnaryOp(op=ast.Not(), operand=clone(test)))
@@ -219,7 +219,7 @@ class Flow:
                         live.append(d)
                         continue
                     ok = True
-                    for test, pol in guard_chain(d):
+                    for test, pol in guard_chain(d, implicit=True):
                         v = decide(test, d, self.depth - 1)
                         if v is not None and v != pol:
                             ok = False
@@ -452,12 +452,22 @@ def iteration_constructs(root):
     return out
 
 
-def guard_chain(node, stop=None):
-    """[(test expr, polarity)] of the enclosing if/elif/else branches of a statement (innermost last)"""
+def guard_chain(node, stop=None, implicit=False):
+    """[(test expr, polarity)] of the enclosing if/elif/else branches of a statement (innermost last).
+    implicit=True also counts guard clauses: an earlier sibling `if c: ...<jump>` without else contributes (c, False)."""
     out = []
     child = node
     n = parent(node)
-    while n is not None and n is not stop and not isinstance(n, (ast.FunctionDef, ast.AsyncFunctionDef)):
+    while n is not None:
+        if implicit:
+            for fld in ("body", "orelse", "finalbody"):
+                blk = getattr(n, fld, None)
+                if isinstance(blk, list) and any(child is s for s in blk):
+                    for sib in reversed(blk[:[i for i, s in enumerate(blk) if s is child][0]]):
+                        if isinstance(sib, ast.If) and not sib.orelse and ends_in_jump(sib.body):
+                            out.append((sib.test, False))
+        if n is stop or isinstance(n, (ast.FunctionDef, ast.AsyncFunctionDef)):
+            break
         if isinstance(n, ast.If):
             if any(child is s for s in n.body):
                 out.append((n.test, True))
